@@ -22,6 +22,8 @@
 
 #include "mp/nl-reader.h"
 
+#include <limits>
+
 namespace {
 enum {
   USE_VBTOL_OPTION = 1,
@@ -189,6 +191,10 @@ void mp::internal::TextReader<Locale>::ReadHeader(NLHeader &header) {
   for (int i = 0; i < header.num_ampl_options; ++i) {
     double tmp;
     if (!ReadOptionalDouble(tmp))
+      break;
+    // The conversion is undefined for values outside long's range (and NaN)
+    if (!(tmp >= (double)std::numeric_limits<long>::min() &&
+          tmp < (double)std::numeric_limits<long>::max() + 1.0))
       break;
     header.ampl_options[i] = (long)tmp;
     if (header.ampl_options[i] != tmp)
